@@ -64,6 +64,7 @@ d4a3bb1 C16
 72c542d C08 C02
 9028362 C17
 3e08cf1 C15
+b50c212 C10
 LIST
 rm -rf "$VERIF/evidence"; cp -r /tmp/evidence.bak.$$ "$VERIF/evidence"; rm -rf /tmp/evidence.bak.$$
 echo "revert sweep done: $OUT"
